@@ -217,4 +217,241 @@ theorem last_def (l : List α) : last l = l.getLast? := rfl
 @[simp] theorem Vec.new_def : (Vec.new : List α) = [] := rfl
 @[simp] theorem into_list (l : List α) : (into l : List α) = l := rfl
 
+/-! ## ---- tree-builder extension (T2): facts about `D`, `L`, loops, out-values, the `Vec` stack vocabulary ---- -/
+
+/-! ### `D` (may-diverge function bodies) -/
+
+@[simp] theorem D.pure_bind (a : α) (f : α → D ρ β) : (pure a >>= f) = f a := rfl
+@[simp] theorem D.ret_bind (r : ρ) (f : α → D ρ β) : ((ret r : D ρ α) >>= f) = ret r := rfl
+@[simp] theorem D.none_bind (f : α → D ρ β) : bind (m := D ρ) (none : Option (Flow ρ α)) f = (none : Option (Flow ρ β)) := rfl
+@[simp] theorem D.bind_assoc (x : D ρ α) (f : α → D ρ β) (g : β → D ρ γ) :
+    ((x >>= f) >>= g) = (x >>= fun a => f a >>= g) := by
+  rcases x with _ | _ | _ <;> rfl
+@[simp] theorem D.run_pure (a : ρ) : D.run (pure a : D ρ ρ) = some a := rfl
+@[simp] theorem D.run_ret (a : ρ) : D.run (ret a : D ρ ρ) = some a := rfl
+@[simp] theorem D.run_none : D.run (none : D ρ ρ) = none := rfl
+@[simp] theorem D.ite_bind (c : Prop) [Decidable c] (x y : D ρ α) (f : α → D ρ β) :
+    ((if c then x else y) >>= f) = if c then x >>= f else y >>= f := by
+  split <;> rfl
+
+@[simp] theorem D.try_ok (a : α) : (Rs.try (.ok a) : D (Res β) α) = pure a := rfl
+@[simp] theorem D.try_error (e : Err) : (Rs.try (.error e : Res α) : D (Res β) α) = ret (.error e) := rfl
+@[simp] theorem D.try_out_ok (a : α) (cur : ω) : (try_out (.ok a) cur : D (Res β × ω) α) = pure a := rfl
+@[simp] theorem D.try_out_error (e : Err) (cur : ω) :
+    (try_out (.error e : Res α) cur : D (Res β × ω) α) = ret (.error e, cur) := rfl
+@[simp] theorem D.unwrap_some (site : Str) (a : α) : (unwrap site (some a) : D (Res β) α) = pure a := rfl
+@[simp] theorem D.unwrap_none (site : Str) : (unwrap site (none : Option α) : D (Res β) α) = ret (.error (.panic site)) := rfl
+@[simp] theorem D.unwrap_out_some (site : Str) (a : α) (cur : ω) :
+    (unwrap_out site (some a) cur : D (Res β × ω) α) = pure a := rfl
+@[simp] theorem D.unwrap_out_none (site : Str) (cur : ω) :
+    (unwrap_out site (none : Option α) cur : D (Res β × ω) α) = ret (.error (.panic site), cur) := rfl
+@[simp] theorem D.panic_def (site : Str) : (panic site : D (Res β) α) = ret (.error (.panic site)) := rfl
+@[simp] theorem D.panic_out_def (site : Str) (cur : ω) :
+    (panic_out site cur : D (Res β × ω) α) = ret (.error (.panic site), cur) := rfl
+@[simp] theorem D.callD_some (a : α) : (callD (some a) : D ρ α) = pure a := rfl
+@[simp] theorem D.callD_none : (callD (none : Option α) : D ρ α) = none := rfl
+@[simp] theorem D.liftD_def (x : D ρ α) : (liftD x : D ρ α) = x := rfl
+
+/-! ### `L` (loop bodies) -/
+
+@[simp] theorem L.pure_bind (a : α) (f : α → L ρ σ β) : (pure a >>= f) = f a := rfl
+@[simp] theorem L.ret_bind (r : ρ) (f : α → L ρ σ β) : ((ret r : L ρ σ α) >>= f) = ret r := rfl
+@[simp] theorem L.brk_bind (s : σ) (f : α → L ρ σ β) : ((brk s : L ρ σ α) >>= f) = brk s := rfl
+@[simp] theorem L.cont_bind (s : σ) (f : α → L ρ σ β) : ((cont s : L ρ σ α) >>= f) = cont s := rfl
+@[simp] theorem L.none_bind (f : α → L ρ σ β) : bind (m := L ρ σ) (none : Option (LFlow ρ σ α)) f = (none : Option (LFlow ρ σ β)) := rfl
+@[simp] theorem L.bind_assoc (x : L ρ σ α) (f : α → L ρ σ β) (g : β → L ρ σ γ) :
+    ((x >>= f) >>= g) = (x >>= fun a => f a >>= g) := by
+  rcases x with _ | _ | _ | _ | _ <;> rfl
+@[simp] theorem L.ite_bind (c : Prop) [Decidable c] (x y : L ρ σ α) (f : α → L ρ σ β) :
+    ((if c then x else y) >>= f) = if c then x >>= f else y >>= f := by
+  split <;> rfl
+
+@[simp] theorem L.try_ok (a : α) : (Rs.try (.ok a) : L (Res β) σ α) = pure a := rfl
+@[simp] theorem L.try_error (e : Err) : (Rs.try (.error e : Res α) : L (Res β) σ α) = ret (.error e) := rfl
+@[simp] theorem L.try_out_ok (a : α) (cur : ω) : (try_out (.ok a) cur : L (Res β × ω) σ α) = pure a := rfl
+@[simp] theorem L.try_out_error (e : Err) (cur : ω) :
+    (try_out (.error e : Res α) cur : L (Res β × ω) σ α) = ret (.error e, cur) := rfl
+@[simp] theorem L.unwrap_some (site : Str) (a : α) : (unwrap site (some a) : L (Res β) σ α) = pure a := rfl
+@[simp] theorem L.unwrap_none (site : Str) : (unwrap site (none : Option α) : L (Res β) σ α) = ret (.error (.panic site)) := rfl
+@[simp] theorem L.unwrap_out_some (site : Str) (a : α) (cur : ω) :
+    (unwrap_out site (some a) cur : L (Res β × ω) σ α) = pure a := rfl
+@[simp] theorem L.unwrap_out_none (site : Str) (cur : ω) :
+    (unwrap_out site (none : Option α) cur : L (Res β × ω) σ α) = ret (.error (.panic site), cur) := rfl
+@[simp] theorem L.panic_def (site : Str) : (panic site : L (Res β) σ α) = ret (.error (.panic site)) := rfl
+@[simp] theorem L.panic_out_def (site : Str) (cur : ω) :
+    (panic_out site cur : L (Res β × ω) σ α) = ret (.error (.panic site), cur) := rfl
+@[simp] theorem L.callD_some (a : α) : (callD (some a) : L ρ σ α) = pure a := rfl
+@[simp] theorem L.callD_none : (callD (none : Option α) : L ρ σ α) = none := rfl
+@[simp] theorem L.liftD_pure (a : α) : (liftD (pure a : D ρ α) : L ρ σ α) = pure a := rfl
+@[simp] theorem L.liftD_ret (r : ρ) : (liftD (ret r : D ρ α) : L ρ σ α) = ret r := rfl
+@[simp] theorem L.liftD_none : (liftD (none : D ρ α) : L ρ σ α) = none := rfl
+
+@[simp] theorem L.pure_inj (a b : α) : ((pure a : L ρ σ α) = pure b) ↔ a = b := by
+  constructor
+  · intro h; injection h with h; injection h
+  · rintro rfl; rfl
+@[simp] theorem L.ret_inj (a b : ρ) : ((ret a : L ρ σ α) = ret b) ↔ a = b := by
+  constructor
+  · intro h; injection h with h; injection h
+  · rintro rfl; rfl
+@[simp] theorem L.pure_ne_ret (a : α) (r : ρ) : ((pure a : L ρ σ α) = ret r) ↔ False := by
+  constructor
+  · intro h; injection h with h; cases h
+  · exact False.elim
+@[simp] theorem L.ret_ne_pure (a : α) (r : ρ) : ((ret r : L ρ σ α) = pure a) ↔ False := by
+  constructor
+  · intro h; injection h with h; cases h
+  · exact False.elim
+
+/-! ### loops: one pass -/
+
+/-- what a loop does with the outcome of one pass through its body -/
+def loopStep (x : L ρ σ σ) (k : σ → D ρ σ) : D ρ σ :=
+  match x with
+  | none => none
+  | some (.ret r) => some (.ret r)
+  | some (.brk s) => some (.val s)
+  | some (.val s) => k s
+  | some (.cont s) => k s
+
+theorem loopFix_unfold (body : σ → L ρ σ σ) (st : σ) : loopFix body st = loopStep (body st) (loopFix body) := by
+  rw [loopFix.eq_1]
+  generalize body st = x
+  rcases x with _ | _ | _ | _ | _ <;> rfl
+@[simp] theorem forPeek_nil (st : σ) (body : α → Option α → σ → L ρ σ σ) : forPeek [] st body = pure st := rfl
+@[simp] theorem forPeek_cons (a : α) (l : List α) (st : σ) (body : α → Option α → σ → L ρ σ σ) :
+    forPeek (a :: l) st body = loopStep (body a l.head? st) (fun s => forPeek l s body) := by
+  rw [forPeek]
+  generalize body a l.head? st = x
+  rcases x with _ | _ | _ | _ | _ <;> rfl
+
+@[simp] theorem loopStep_pure (s : σ) (k : σ → D ρ σ) : loopStep (pure s) k = k s := rfl
+@[simp] theorem loopStep_cont (s : σ) (k : σ → D ρ σ) : loopStep (cont s) k = k s := rfl
+@[simp] theorem loopStep_brk (s : σ) (k : σ → D ρ σ) : loopStep (brk s) k = pure s := rfl
+@[simp] theorem loopStep_ret (r : ρ) (k : σ → D ρ σ) : loopStep (ret r) k = ret r := rfl
+@[simp] theorem loopStep_none (k : σ → D ρ σ) : loopStep (none : L ρ σ σ) k = none := rfl
+@[simp] theorem loopStep_ite (c : Prop) [Decidable c] (x y : L ρ σ σ) (k : σ → D ρ σ) :
+    loopStep (if c then x else y) k = if c then loopStep x k else loopStep y k := by
+  split <;> rfl
+
+/-- a loop whose body never exits has no value -/
+theorem loopFix_diverges (st : σ) : loopFix (ρ := ρ) (fun s => pure s) st = none := by
+  open Lean.Order in
+  apply loopFix.fixpoint_induct (fun (s : σ) => (pure s : L ρ σ σ)) (motive := fun f => ∀ st, f st = none)
+  · apply admissible_pi_apply (fun st (x : D ρ σ) => x = none)
+    intro st
+    exact admissible_flatOrder (b := (none : Option (Flow ρ σ))) _ rfl
+  · intro f ih st
+    exact ih st
+
+@[simp] theorem converged_some (site : Str) (r : Res α) : converged site (some r) = r := rfl
+
+/-! ### the `Vec` stack vocabulary -/
+
+@[simp] theorem len_nodes (l : List Node) : len l = l.length := rfl
+@[simp] theorem len_tokens (l : List Token) : len l = l.length := rfl
+/-- `pop`, `last`, `set_last` are evaluated by the core simp lemmas about `getLast?` / `dropLast` -/
+@[simp] theorem pop_def (a : List α) : pop a = (a.getLast?, a.dropLast) := rfl
+theorem set_last_def (a : List α) (x : α) : set_last a x = a.dropLast ++ [x] := rfl
+
+/-! ### comparisons (not global simp lemmas: the proofs of the tree builder enable them locally, `attribute [local simp]`) -/
+
+theorem lt_nat (a b : Nat) : lt a b = decide (a < b) := rfl
+theorem le_nat (a b : Nat) : le a b = decide (a ≤ b) := rfl
+theorem gt_nat (a b : Nat) : gt a b = decide (a > b) := rfl
+theorem ge_nat (a b : Nat) : ge a b = decide (a ≥ b) := rfl
+theorem eq_option_some [PEq α] (a b : α) : eq (some a) (some b) = eq a b := rfl
+theorem eq_option_none_some [PEq α] (b : α) : eq (none : Option α) (some b) = false := rfl
+theorem eq_option_some_none [PEq α] (a : α) : eq (some a) (none : Option α) = false := rfl
+theorem eq_option_none [PEq α] : eq (none : Option α) none = true := rfl
+@[simp] theorem eq_discriminant (a b : Operator) : eq (discriminant a) (discriminant b) = (a.kind == b.kind) := rfl
+@[simp] theorem eq_operator_rootNode (o : Operator) : eq o Operator.rootNode = (o.kind == .rootNode) := by
+  cases o <;> rfl
+theorem eq_operator_kind {a b : Operator} (h : eq a b = true) : a.kind = b.kind := by
+  cases a <;> cases b <;> first | rfl | cases h
+@[simp] theorem eq_token_not (t : Token) : eq t Token.not = t.isNot := by
+  cases t <;> rfl
+@[simp] theorem eq_token_lBrace (t : Token) : eq t Token.lBrace = t.isLBrace := by
+  cases t <;> rfl
+
+/-! ### peekable iteration against a Model fold -/
+
+/-- two errors agree up to the site string of a panic (the translator names panic sites after the Rust function and construct,
+the Model after what it models) -/
+def ErrSim (e' e : Err) : Prop := e' = e ∨ (e'.isPanic = true ∧ e.isPanic = true)
+/-- two results agree up to the site string of a panic -/
+def PanicEq (r' r : Res α) : Prop := r' = r ∨ (r'.isPanic = true ∧ r.isPanic = true)
+
+theorem ErrSim.refl (e : Err) : ErrSim e e := .inl rfl
+theorem PanicEq.refl (r : Res α) : PanicEq r r := .inl rfl
+theorem PanicEq.of_errSim {e' e : Err} (h : ErrSim e' e) : PanicEq (.error e' : Res α) (.error e) := by
+  rcases h with rfl | h
+  · exact .inl rfl
+  · exact .inr h
+/-- if the Model's result is not a panic, agreement up to panic sites is equality -/
+theorem PanicEq.eq_of_noPanic {r' r : Res α} (h : PanicEq r' r) (hn : r.isPanic = false) : r' = r := by
+  rcases h with h | ⟨_, h⟩
+  · exact h
+  · rw [hn] at h; cases h
+
+/-- the Model shape of a `while let Some(x) = it.next()` loop with lookahead: fold the step function over the list, stop at the
+first error -/
+def foldPeek (step : α → Option α → τ → Res τ) : List α → τ → Res τ
+  | [], t => .ok t
+  | a :: l, t =>
+    match step a l.head? t with
+    | .ok t' => foldPeek step l t'
+    | .error e => .error e
+
+/-- … followed by what comes after the loop -/
+def foldPeekThen (step : α → Option α → τ → Res τ) (fin : τ → Res β) (l : List α) (t : τ) : Res β :=
+  match foldPeek step l t with
+  | .ok t' => fin t'
+  | .error e => .error e
+
+/-- one pass through a translated loop body `o` against the Model's step result `m`, on related states: a new related state,
+or an early `return Err(e)` with the same error up to the panic site -/
+def StepSim {σ τ β : Type} (R : σ → τ → Prop) (o : L (Res β) σ σ) (m : Res τ) : Prop :=
+  match m with
+  | .ok t' => ∃ s', o = pure s' ∧ R s' t'
+  | .error e => ∃ e', o = ret (.error e') ∧ ErrSim e' e
+
+@[simp] theorem StepSim_ok {σ τ β : Type} (R : σ → τ → Prop) (o : L (Res β) σ σ) (t' : τ) :
+    StepSim R o (.ok t') ↔ ∃ s', o = pure s' ∧ R s' t' := Iff.rfl
+@[simp] theorem StepSim_error {σ τ β : Type} (R : σ → τ → Prop) (o : L (Res β) σ σ) (e : Err) :
+    StepSim (τ := τ) R o (.error e) ↔ ∃ e', o = ret (.error e') ∧ ErrSim e' e := Iff.rfl
+/-- the first statement of a body replaced by an equal computation -/
+theorem StepSim.bind_left {σ τ β γ : Type} {R : σ → τ → Prop} {x x' : L (Res β) σ γ} {k : γ → L (Res β) σ σ} {m : Res τ}
+    (h : x = x') (h2 : StepSim R (x' >>= k) m) : StepSim R (x >>= k) m := h ▸ h2
+
+/-- SIMULATION: if one pass through the translated loop body does what the Model's step function does (on related states: a
+new related state, or an early `return Err(e)` with the same error up to the panic site), then the translated loop does what the
+Model's fold does — in particular it terminates — and what follows the loop (`k`) can be compared on related states. -/
+theorem run_forPeek_bind_sim {α σ τ β : Type} (R : σ → τ → Prop) (step : α → Option α → τ → Res τ) (fin : τ → Res β)
+    {body : α → Option α → σ → L (Res β) σ σ} {k : σ → D (Res β) (Res β)} {l : List α} {s : σ} {t : τ}
+    (hR : R s t)
+    (hbody : ∀ a nxt s t, R s t → StepSim R (body a nxt s) (step a nxt t))
+    (hk : ∀ s t, R s t → ∃ r, D.run (k s) = some r ∧ PanicEq r (fin t)) :
+    ∃ r, D.run (forPeek l s body >>= k) = some r ∧ PanicEq r (foldPeekThen step fin l t) := by
+  induction l generalizing s t with
+  | nil => simpa [foldPeek, foldPeekThen] using hk s t hR
+  | cons a l ih =>
+    have hb := hbody a l.head? s t hR
+    simp only [forPeek_cons, foldPeek, foldPeekThen] at ih ⊢
+    cases hs : step a l.head? t with
+    | ok t' =>
+      rw [hs] at hb
+      simp only [StepSim_ok] at hb
+      obtain ⟨s', hs', hR'⟩ := hb
+      simp only [hs', loopStep_pure]
+      exact ih hR'
+    | error e =>
+      rw [hs] at hb
+      simp only [StepSim_error] at hb
+      obtain ⟨e', he', hsim⟩ := hb
+      simp only [he', loopStep_ret, D.ret_bind, D.run_ret]
+      exact ⟨_, rfl, PanicEq.of_errSim hsim⟩
+
+/-! ## ---- end of the tree-builder extension (T2) ---- -/
+
 end Evalexpr.Rs
